@@ -479,6 +479,11 @@ func main() {
 		return
 	}
 	rep := lib.NewReport("C14")
+	if os.Getenv("VERIF_C14_ONLY") == "m11" {
+		partM11(rep)
+		rep.Finish()
+		return
+	}
 	rep.Rule = "generated concurrent programs: scenarios = sharing mechanism (go argument, closure, global, channel, field of shared object, interface, map, slice, publishing callee, function value, none) × access form (store, load, map update/lookup/delete/len/range/clear, slice element store/load, append, copy, struct store/load, pointer chain) × indirection (direct, callee, nested callee, closure, method, interface invoke, deferred closure); distinct = distinct shape"
 	var progs []*progCase
 	// 1. fixed corpus: replay programs of the known findings first (one run per distinct program)
@@ -500,7 +505,7 @@ func main() {
 	rnd := lib.Rand("c14-conc")
 	nProgs, perProg := 2, 45
 	if lib.Thorough() {
-		nProgs, perProg = 14, 70
+		nProgs, perProg = 10, 60
 	}
 	if explore {
 		nProgs, perProg = 10, 120
@@ -533,6 +538,7 @@ func main() {
 			rep.Case("corpus:" + pc.name)
 		}
 	}
+	partM11(rep)
 	rep.Extra["programs"] = nProgs
 	if explore {
 		var ks []string
